@@ -13,6 +13,7 @@ EXPLANATION = (
     "owner of the last gate at now); (R6) sender id stamped on every send path, receiver id stamped before the handler; (R7) a "
     "send is delayed iff send_time > now. "
     '(R5 also: the gate whose owner receives the message is the gate the walk last entered; R7 also: sending on a gate handle (GateRef / GateRefWeak) sends on exactly that gate.) '
+    '(R8) Gate::path_iter hands out the unbounded hop-by-hop walker (no take/filter, no hop counter). '
     "Decides these necessary conditions only; not arrival-time sums over all chain shapes.")
 ASSUMPTIONS = ["gates are only wired through Gate::connect (slot table private)"]
 
